@@ -273,7 +273,7 @@ fn stub_read_dir_eacces<P: AsRef<Path>>(_p: P) -> std::io::Result<std::fs::ReadD
 }
 // cut: the specification of these instances has no start-time part (TimestampCfg::No); the arm that
 // renders the clock (chrono; pulls every chrono error type into the drop glue of io::Error) is not taken
-fn cut_get_timestamp(cfg: &TimestampCfg) -> Option<String> {
+pub(crate) fn cut_get_timestamp(cfg: &TimestampCfg) -> Option<String> {
     match cfg {
         TimestampCfg::No => None,
         _ => unreachable!("VERIF-CUT: start-time part requested in an instance without one"),
@@ -457,6 +457,7 @@ macro_rules! cfi_instance {
         #[kani::stub(std::path::Path::extension, verif_support::pathm::extension)]
         #[kani::stub(std::fmt::format, stub_format_marker)]
         #[kani::stub(str::parse, stub_parse_rec)]
+        #[kani::stub(TimestampCfg::get_timestamp, cut_get_timestamp)]
         fn $name() {
             cfi_case($nosfx, $p1, $p2, $want);
         }
